@@ -4,7 +4,7 @@
 From CV Require Import Value.ValueEq Value.ValueEqProofs Value.EqualM Value.Den Value.DenFacts Value.DenLists
                        Value.CanonSpec Value.CanonProofs Value.CanonProofs3 Value.CanonM Value.CanonMStruct
                        Value.CanonMWords Value.CanonMData Value.CanonMHeap Value.CanonMLoop Value.CanonSafe Value.EqualProofs
-                       Value.CanonMProofs Value.CanonMInd Value.CanonMListP Value.CanonMListR.
+                       Value.CanonMProofs Value.CanonMInd Value.CanonMListP Value.CanonMListR Value.VDec Value.VDecProofs.
 From CV Require Import Core.ReaderFacts Core.SafetyProofs Core.BuilderFacts Core.ArithFacts Core.CopySafe.
 From Coq Require Import ZifyBool ZifyNat.
 Ltac Zify.zify_post_hook ::= Z.div_mod_to_equations.
@@ -189,3 +189,78 @@ Proof.
 Qed.
 
 End Top.
+
+(* ------------------------------------------------------------------ closed statements *)
+(* [T2] on the proved domain: whenever Canonicalize (all repairs applied, strict reader, well-formed
+   source struct) returns bytes for a value in [cdom], they are the specification's canonical form.
+   Errors are not constrained (limits; a capability makes Canonicalize fail and canon = None);
+   the absence of panics is CanonSafe.canonicalize_safe. *)
+Theorem canon_m_correct_cdom : forall fuel c fx m rl s v bs rl',
+  all_cfixed fx -> cfg_strict c = true -> msg_ok m -> wf_ptr m s ->
+  (p_valid s = true -> p_kind s = KStruct /\ DataSize (p_size s) mod 8 = 0) ->
+  den true m 0 [] s v -> cdom v = true ->
+  canonicalize c fx fuel m rl s = (KOk bs, rl') -> canon v = Some bs.
+Proof. intros fuel c fx m rl s v bs rl' Hf Hs M W K D Hd C. exact (canon_m_cdom c fx m Hs Hf M fuel rl s v bs rl' W K D Hd C). Qed.
+
+(* the three consequences, no longer conditional (on the proved domain) *)
+Theorem canon_m_layout_independent : forall fuel c fx m1 rl1 s1 v1 m2 rl2 s2 v2 bs1 bs2 r1 r2,
+  all_cfixed fx -> cfg_strict c = true -> msg_ok m1 -> msg_ok m2 -> wf_ptr m1 s1 -> wf_ptr m2 s2 ->
+  (p_valid s1 = true -> p_kind s1 = KStruct /\ DataSize (p_size s1) mod 8 = 0) ->
+  (p_valid s2 = true -> p_kind s2 = KStruct /\ DataSize (p_size s2) mod 8 = 0) ->
+  den true m1 0 [] s1 v1 -> den true m2 0 [] s2 v2 -> cdom v1 = true -> cdom v2 = true ->
+  nocap v1 = true -> value_eqs v1 v2 = true ->
+  canonicalize c fx fuel m1 rl1 s1 = (KOk bs1, r1) -> canonicalize c fx fuel m2 rl2 s2 = (KOk bs2, r2) ->
+  bs1 = bs2.
+Proof.
+  intros fuel c fx m1 rl1 s1 v1 m2 rl2 s2 v2 bs1 bs2 r1 r2 Hf Hs M1 M2 W1 W2 K1 K2 D1 D2 Hd1 Hd2 Hc He C1 C2.
+  pose proof (canon_m_correct_cdom fuel c fx m1 rl1 s1 v1 bs1 r1 Hf Hs M1 W1 K1 D1 Hd1 C1) as E1.
+  pose proof (canon_m_correct_cdom fuel c fx m2 rl2 s2 v2 bs2 r2 Hf Hs M2 W2 K2 D2 Hd2 C2) as E2.
+  rewrite (canon_unique v1 v2 Hc He) in E1. congruence.
+Qed.
+
+Theorem canon_m_value_preserved : forall fuel c fx m rl s v bs r,
+  all_cfixed fx -> cfg_strict c = true -> msg_ok m -> wf_ptr m s ->
+  (p_valid s = true -> p_kind s = KStruct /\ DataSize (p_size s) mod 8 = 0) ->
+  den true m 0 [] s v -> good v -> cdom v = true ->
+  canonicalize c fx fuel m rl s = (KOk bs, r) ->
+  exists v', cdecode (S (vdepth (norm v))) bs = Some v' /\ value_eqs v' v = true /\ value_eq v' v = true.
+Proof.
+  intros fuel c fx m rl s v bs r Hf Hs M W K D G Hd C.
+  pose proof (canon_m_correct_cdom fuel c fx m rl s v bs r Hf Hs M W K D Hd C) as E.
+  apply canon_decodes_equal; assumption.
+Qed.
+
+Theorem canon_m_idempotent : forall fuel c fx m rl s v bs r m' rl' s' v' bs' r',
+  all_cfixed fx -> cfg_strict c = true -> msg_ok m -> msg_ok m' -> wf_ptr m s -> wf_ptr m' s' ->
+  (p_valid s = true -> p_kind s = KStruct /\ DataSize (p_size s) mod 8 = 0) ->
+  (p_valid s' = true -> p_kind s' = KStruct /\ DataSize (p_size s') mod 8 = 0) ->
+  den true m 0 [] s v -> nocap v = true -> cdom v = true ->
+  canonicalize c fx fuel m rl s = (KOk bs, r) ->
+  den true m' 0 [] s' v' -> cdom v' = true -> value_eqs v v' = true ->      (* m' = the output, read back *)
+  canonicalize c fx fuel m' rl' s' = (KOk bs', r') ->
+  bs' = bs.
+Proof.
+  intros fuel c fx m rl s v bs r m' rl' s' v' bs' r' Hf Hs M M' W W' K K' D Hc Hd C D' Hd' He C'.
+  symmetry. eapply (canon_m_layout_independent fuel c fx m rl s v m' rl' s' v'); eassumption.
+Qed.
+
+(* ------------------------------------------------------------------ non-vacuity *)
+(* a root struct (data word 7) with a byte list "abc" and a pointer list holding one struct:
+   every hypothesis of canon_m_correct_cdom holds, Canonicalize returns bytes, and they are
+   canon of the denoted value (computed independently) *)
+Definition msg_ex : segs :=
+  [wbytes [struct_word 0 1 2; 7; list_word 1 2 3; list_word 1 6 1; 6513249; struct_word 0 1 0; 5]].
+Definition root_ex : Ptr :=
+  match fst (readPtr true msg_ex 1000000 0 (nth 0 msg_ex []) 0 64) with Ok q => q | _ => nullPtr end.
+
+Example canon_m_cdom_nonvacuous :
+  all_cfixed repaired /\ cfg_strict cfg0 = true /\ p_valid root_ex = true /\ p_kind root_ex = KStruct /\
+  DataSize (p_size root_ex) mod 8 = 0 /\
+  exists v bs rl', den true msg_ex 0 [] root_ex v /\ cdom v = true /\ v <> VNull /\
+                   canonicalize cfg0 repaired 20 msg_ex 1000000 root_ex = (KOk bs, rl') /\ canon v = Some bs.
+Proof.
+  split; [repeat split; reflexivity|]. split; [reflexivity|]. split; [reflexivity|]. split; [reflexivity|]. split; [reflexivity|].
+  eexists. eexists. eexists.
+  split; [apply (vdec_den 10 1000000); vm_compute; reflexivity|].
+  split; [vm_compute; reflexivity|]. split; [discriminate|]. split; vm_compute; reflexivity.
+Qed.
